@@ -33,7 +33,18 @@ impl SwiftField for Field79 {
         let mut lines = Vec::new();
 
         // Parse up to 35 lines of 50 characters each
-        for line in input.lines().take(35) {
+        if input.lines().count() > 35 {
+            return Err(ParseError::InvalidFormat {
+                message: "Field 79 cannot have more than 35 lines".to_string(),
+            });
+        }
+
+        for line in input.lines() {
+            if line.is_empty() {
+                return Err(ParseError::InvalidFormat {
+                    message: "Field 79 cannot contain an empty line".to_string(),
+                });
+            }
             // Validate line length (max 50 characters)
             if line.len() > 50 {
                 return Err(ParseError::InvalidFormat {
